@@ -383,6 +383,22 @@ static long __attribute__((noinline)) reghold_run(void) {
 #endif
 }
 
+/* a registry of n objects at once (beyond the last entry of the collector's table of sizes when n > 7.9 million): every one is
+   known, none that was not registered is, and after deleting them all none is; returns the number of wrong answers */
+static long __attribute__((noinline)) regscale_run(long n) {
+  long bad = 0; var gc = current(GC);
+  var* ps = malloc((size_t)n * sizeof(var));
+  for (long i = 0; i < n; i++) {
+    ps[i] = new_root(Int, $I(i));
+    if ((i > n - 5000 || i % 65521 == 0) && (!mem(gc, ps[i]) || !mem(gc, ps[i / 2]) || !mem(gc, ps[0]))) bad++;
+  }
+  var raw = new_raw(Int, $I(1)); if (mem(gc, raw)) bad++; del_raw(raw);
+  for (long i = 0; i < n; i += (i < 3000 || i > n - 3000) ? 1 : 4099) if (!mem(gc, ps[i])) bad++;
+  for (long i = 0; i < n; i++) { var p = ps[i]; del_root(p); if (i % 65521 == 0 && (mem(gc, p) || (i + 1 < n && !mem(gc, ps[i + 1])))) bad++; }
+  free(ps);
+  return bad;
+}
+
 static void __attribute__((noinline)) plain_nodes_build(long base, long n) { for (long i = 0; i < n; i++) { var nd = new(Node, $I(base + i)); (void)nd; } }
 
 /* a heap Tuple one of whose items is NULL (set, push and the constructor accept it): the collector meets it while marking */
@@ -650,6 +666,12 @@ static int __attribute__((noinline)) real_main(int argc, char** argv) {
     } else if (hc_is(0, "reghold")) {          /* reghold : the only reference to an object is a CPU register while collections run */
       bulkn = 1; long bad = 0;
       HC_TRY(bad = reghold_run());
+      ev_begin("bulk"); ev_int("n", 1); ev_int("rooted", 1); ev_int("lost", bad); ev_int("twice", 0); ev_int("stale", 0); ev_int("gone", 0);
+      ev_str("exc", hc_exc); ev_int("line", cur_line); ev_end();
+    } else if (hc_is(0, "regscale")) {         /* regscale <n> : n root objects registered at once, looked up, deleted */
+      long n = (long)hc_int(1); volatile long bad = 0; bulkn = 0;
+      alarm(240);
+      HC_TRY(bad = regscale_run(n));
       ev_begin("bulk"); ev_int("n", 1); ev_int("rooted", 1); ev_int("lost", bad); ev_int("twice", 0); ev_int("stale", 0); ev_int("gone", 0);
       ev_str("exc", hc_exc); ev_int("line", cur_line); ev_end();
     } else if (hc_is(0, "finalloc")) {         /* finalloc <n> <k> : n garbage Nodes whose finalisers allocate k objects each, in the middle of a sweep */
